@@ -16,8 +16,9 @@ File ids: fid = (fn*3 + kind)*2 + t with kind 0 table / 1 nbi / 2 nbc, t 0 mdc /
 import contextlib, glob as globmod, importlib, importlib.util, io, json, os, shutil, subprocess, sys, tempfile, types
 from pathlib import Path
 
-BASE = 1_600_000_000
-TICK_NS = 250_000_000      # one model clock tick = a quarter of a second: successive writes usually fall into the SAME second
+BASE = int(os.environ.get("C17_BASE", 1_600_000_000))
+TICK_NS = int(os.environ.get("C17_TICK_NS", 250_000_000))   # one model clock tick = a quarter of a second: successive writes usually fall into the SAME second
+# (tools/props/c17.py repeats part of the replay with ten-minute ticks around the end of daylight saving time in a zone that has it)
 TN = ["mdc", "emc"]
 DISTRACTORS = ["mdc.cpython-312.pyc", "emc.cpython-312.pyc", "mdcx.k1-101.py312.nbi", "helix.k1-101.py312.1.nbc",
                "mdc.k1-101.py312.nbx", "xemc.k1-101.py312.nbi"]
